@@ -787,18 +787,18 @@ class Mailbox:
                     #
                     if not self.executing_tasks:
                         async with self.mailbox.lock_folder():
-                            changed = await self.check_new_msgs_and_flags()
+                            await self.check_new_msgs_and_flags()
 
-                        # Need to update this command's msg_set_as_set before
-                        # we add it to the list of executing commands (the list
-                        # is empty so we only need to update this one command)
-                        #
-                        if changed:
-                            imap_cmd.msg_set_as_set = (
-                                self.msg_set_to_msg_seq_set(
-                                    imap_cmd.msg_set, imap_cmd.uid_command
-                                )
-                            )
+                    # While this command waited for its turn the mailbox may
+                    # have changed under it (another session's EXPUNGE, new
+                    # messages found by the resync) so what its message set
+                    # denoted before the wait may be other messages now. Always
+                    # resolve it again, after the last point where this task
+                    # could have been suspended.
+                    #
+                    imap_cmd.msg_set_as_set = self.msg_set_to_msg_seq_set(
+                        imap_cmd.msg_set, imap_cmd.uid_command
+                    )
 
                     self.executing_tasks.append(imap_cmd)
                 except Exception as exc:
